@@ -67,6 +67,21 @@ Section Framing.
   Definition whole (s : St) (stream : list byte) : rstate :=
     let '(s', ms, tl, c) := run_all s stream in
     {| r_dec := s'; r_out := ms; r_tail := tl; r_closed := c |}.
+
+  (* the sender's view: messages decoded one by one, stopping at the first undecodable one;
+     returns the decoder state, the delivered messages, the messages never looked at, closed? *)
+  Fixpoint deliver (s : St) (fs : list (list byte)) : St * list M * list (list byte) * bool :=
+    match fs with
+    | [] => (s, [], [], false)
+    | f :: r =>
+        match decode s f with
+        | (s', None) => (s', [], r, true)
+        | (s', Some m) => let '(s'', ms, rest, c) := deliver s' r in (s'', m :: ms, rest, c)
+        end
+    end.
 End Framing.
+
+(* a frame whose header length field is its actual length (at least the 4 bytes Peek needs) *)
+Definition wf_frame (f : list byte) : Prop := frame_len f = Some (length f).
 
 Arguments frame_len buf : simpl never.
